@@ -39,6 +39,7 @@ fn main() {
         "buffer" => buffer::handle,
         "cli" => cli::handle,
         "prep" => |t| front::prep(&t[1..]),
+        "diags" => |t| front::diags(&t[1..]),
         _ => {
             eprintln!("unknown component {comp}");
             std::process::exit(2);
